@@ -227,9 +227,19 @@ m("C05", "proof",
   "resolves the path and leaves an empty file, nothing else changes (C05_metadata_creates_or_truncates); a File "
   "Data PDU changes the filestore not at all or exactly by writeBytes at its offset in the destination file, "
   "whatever else the call does (C05_file_data_applies_write_model, Hoare-style over the whole _handle_fd_pdu); "
-  "byte-level meaning of writeBytes in C17.",
-  "Lean 4 theorems (frame lemmas + Hoare triple over _handle_fd_pdu) + differential write-model oracle",
-  "§6 C05", ["the ghost-log invariant over whole histories is checked by the oracle, proved per call"])
+  "byte-level meaning of writeBytes in C17. EVERY STATE, EVERY INPUT, EVERY HISTORY (Hoare triples over every "
+  "receiver method, Lemmas/PathFrameDest.lean and Lemmas/EffectDest.lean): C05_untouched_path_all_histories — "
+  "from any state in which q is not the destination path (a new handler in particular), after any sequence of "
+  "operations of any kind (any PDUs, timers, cancel, reset, fault table changes, rejected writes), returned or "
+  "raised, a path q that no Metadata PDU named as destination (nor as the directory that resolves to it) has "
+  "exactly its initial content; C05_call_effect / C05_op_effect / C05_file_data_effect — for every state and "
+  "packet, what one call can leave at any path is: what was there; nothing (disposition delete); the old "
+  "content with exactly this call's File Data payload written at exactly its offset; an empty file if this "
+  "call's packet is a Metadata PDU — no other bytes, offset, second write or truncation; C05_wf_all_histories.",
+  "Lean 4 theorems (Hoare triples over every method of the receiver: every-history frame and per-call write "
+  "model; frame lemmas) + differential write-model oracle",
+  "§6 C05, §11.3b", ["the per-call write model is a theorem for every state and input; that the file equals the "
+                     "fold of those per-call effects over a history is their composition (oracle-checked)"])
 m("C06", "proof",
   "acknowledged-mode destination sessions on grid-segmented files: tiles permuted, lost, duplicated, late; "
   "Metadata and EOF at any position; immediate and deferred mode; max_packet_len forcing multi-PDU sequences; "
@@ -277,8 +287,16 @@ m("C12", "proof",
   "on-cancellation and reports exactly the stored parameters, which the Finished PDU repeats; an EOF (cancel) "
   "finishes with the EOF's condition and the sender as fault location; a matching cancel at the sender queues "
   "as next PDU the EOF (cancel) with size = progress and the checksum of exactly that prefix, is idle at once "
-  "(unacknowledged) or awaits the ACK; a second cancel abandons.",
-  "Lean 4 theorems (forward simulation of the cancel paths) + differential correspondence", "§6 C12")
+  "(unacknowledged) or awaits the ACK; a second cancel abandons. BOTH MODELS COMPOSED, for every file, "
+  "segment length, number of tiles sent before the cancel, configuration and checksum type: "
+  "C12_end_to_end_cancel_unack and C12_end_to_end_cancel_ack — the sender's run (Metadata, m tiles), the cancel "
+  "request (true; next PDU = EOF (Cancel request received, size m*seg, checksum of exactly that prefix); no "
+  "further file data), the receiver's completion (Transaction-Finished with the cancel condition, the sender "
+  "as fault location, Data incomplete; the file deleted exactly when disposition-on-cancellation is "
+  "configured), in acknowledged mode the ACK (EOF), the Finished (cancel) PDU carrying those values back, the "
+  "sender's report of the same values and both idle. Concrete instances show the hypotheses are satisfiable.",
+  "Lean 4 theorems (forward simulation of the cancel paths; composition of both models) + differential "
+  "correspondence", "§6 C12, §11.3b")
 m("C13", "proof",
   "unacknowledged destination scenarios: EOF ahead of any non-empty subset of tiles, each late tile arriving "
   "before a chosen check-timer expiry or never, limits 1..4, calls one ms before each expiry; sender closure "
